@@ -138,6 +138,52 @@ def st_process(spec):
             bad("C15.element-hashes-distinct", f"{key}: hash collision among {len(pruned)} element instances")
         elems[key] = sorted(pruned, key=lambda x: x.name)
         events.append(["elements", key, len(pn), core.digest(pn)])
+    # ---- fault injection at the validity seam: an enumeration that is interrupted part-way (an exception raised inside the
+    #      k-th validity check - what Ctrl-C or a MemoryError during the long enumeration amounts to) and then simply repeated
+    #      with the very same arguments must give the complete set, not whatever the interrupted attempt left behind
+    import frozendict
+    from maze_dataset.tokenization import _TokenizerElement as _TE
+
+    class _Injected(Exception):
+        pass
+
+    frng = random.Random(spec["seed"] ^ 0xFA17)
+    n_inj = 0
+    for key, cls in bases.items():
+        want = [x.name for x in elems[key]]
+        for _rep in range(2):
+            cnt = {"n": 0}
+
+            def counting(x, _c=cnt):
+                _c["n"] += 1
+                return x.is_valid()
+
+            VC = frozendict.frozendict({**dict(V), _TE: counting})
+            list(all_instances(cls, VC))
+            total_calls = cnt["n"]
+            if total_calls < 2:
+                break
+            st = {"n": 0, "fail_at": frng.randint(1, total_calls)}
+
+            def faulty(x, _s=st):
+                _s["n"] += 1
+                if _s["n"] == _s["fail_at"]:
+                    raise _Injected()
+                return x.is_valid()
+
+            VF = frozendict.frozendict({**dict(V), _TE: faulty})
+            try:
+                list(all_instances(cls, VF))
+                fired = False
+            except _Injected:
+                fired = True
+            again = sorted(x.name for x in all_instances(cls, VF))  # same arguments, the fault does not recur
+            n_inj += int(fired)
+            events.append(["interrupted-enumeration", key, st["fail_at"], total_calls, fired, len(again)])
+            if again != sorted(want):
+                bad("C15.enumeration-after-interruption", f"{key}: after an enumeration interrupted in validity check {st['fail_at']} of {total_calls}, repeating it yields {len(again)} instances instead of {len(want)}")
+                break
+    stats["fault_enumeration_interrupted"] = n_inj
     n_coord, n_adj, n_tgt, n_path = len(elems["coord"]), len(elems["adj_list"]), len(elems["target"]), len(elems["path"])
     predicted = n_coord * n_adj * n_path * (n_tgt + 1)  # AOTP has a target tokenizer, AOP has none
     events.append(["predicted", n_coord, n_adj, n_path, n_tgt, predicted])
